@@ -11,7 +11,7 @@ pub(crate) struct TraceEntry {
     pub(crate) instr_ip: u64,
     pub(crate) target: u64,
     pub(crate) variant: TraceVariant,
-    pub(crate) level: i16,
+    pub(crate) level: i64,
     pub(crate) count: u64,
 }
 
